@@ -141,7 +141,7 @@ impl Check for C01 {
         vec!["compared_with_reference", "ring:Z", "ring:ZB", "ring:Q", "ring:F2", "ring:F3"]
     }
     fn max_steps(&self) -> usize { 20_000_000 }
-    fn runs(&self, tier: &str) -> u64 { if tier == "quick" { 6_000 } else { 1_500_000 } }
+    fn runs(&self, tier: &str) -> u64 { if tier == "quick" { 20_000 } else { 1_000_000 } }
     fn gen_case(&self, rng: &mut Rng, _idx: u64, tier: &str) -> Value {
         let max_x = if tier == "quick" { 9 } else { 11 };
         let (name, pd) = diag::draw(rng, max_x);
@@ -156,6 +156,7 @@ impl Check for C01 {
         let ring = case["ring"].as_str().unwrap();
         crate::dispatch_khring!(ring, run_typed, case, ex)
     }
+    fn has_cross_check(&self) -> bool { true }
     fn cross_check(&self, runs: &[(u64, Value, RunReport)]) -> Vec<(u64, Violation)> {
         // the answer may not depend on crossing order, schedule, hash order or worker count
         let mut first: BTreeMap<String, (u64, String)> = BTreeMap::new();
